@@ -19,24 +19,25 @@ from . import storeutil
 
 WORLD = 'L'
 
-KINDS = ['ctx_new', 'ctx_drop', 'gc', 'lat_force', 'ctx_copy', 'dict_rt', 'literal_rt',
+KINDS = ['ctx_new', 'ctx_drop', 'gc', 'lat_force', 'lat_direct', 'ctx_copy', 'dict_rt', 'literal_rt',
+         'q_lat_slice',
          'q_int', 'q_ext', 'q_get', 'q_lat_get', 'q_lat_idx', 'q_lat_top', 'q_lat_call',
          'q_neighbors', 'q_links', 'q_labels',
          'h_open', 'h_step', 'h_close', 'h_abandon',
          'pk_ctx', 'pk_lat', 'pk_foreign', 'set_order']
 
 DISTURB = ['pk_ctx', 'pk_lat', 'pk_foreign', 'dict_rt', 'literal_rt', 'ctx_copy', 'gc', 'ctx_drop',
-           'set_order']
+           'set_order', 'lat_direct', 'q_lat_slice']
 
 FOCUS = {
     'C01': {'q_int': 8, 'q_ext': 8, 'q_get': 1, 'pk_foreign': 4, 'pk_ctx': 2, 'h_open': 1, 'h_step': 2},
-    'C02': {'q_get': 6, 'q_lat_get': 6, 'q_lat_idx': 2, 'q_lat_top': 1, 'q_lat_call': 5,
+    'C02': {'q_get': 6, 'q_lat_get': 6, 'q_lat_idx': 2, 'q_lat_slice': 2, 'lat_direct': 1, 'q_lat_top': 1, 'q_lat_call': 5,
             'lat_force': 2, 'dict_rt': 3, 'pk_lat': 3, 'pk_foreign': 2, 'literal_rt': 1},
-    'C05': {'q_neighbors': 7, 'q_links': 5, 'h_open': 4, 'h_step': 10, 'h_close': 1, 'h_abandon': 1,
+    'C05': {'q_neighbors': 7, 'q_links': 5, 'lat_direct': 1, 'h_open': 4, 'h_step': 10, 'h_close': 1, 'h_abandon': 1,
             'lat_force': 2, 'dict_rt': 2, 'pk_lat': 2, 'pk_foreign': 2},
-    'C09': {'h_open': 6, 'h_step': 14, 'h_close': 2, 'h_abandon': 2, 'lat_force': 2, 'set_order': 2,
+    'C09': {'lat_direct': 1, 'h_open': 6, 'h_step': 14, 'h_close': 2, 'h_abandon': 2, 'lat_force': 2, 'set_order': 2,
             'pk_lat': 2, 'dict_rt': 1, 'gc': 1},
-    'C10': {'lat_force': 4, 'dict_rt': 4, 'pk_lat': 4, 'pk_ctx': 2, 'pk_foreign': 3, 'ctx_copy': 2,
+    'C10': {'lat_force': 4, 'lat_direct': 3, 'dict_rt': 4, 'pk_lat': 4, 'pk_ctx': 2, 'pk_foreign': 3, 'ctx_copy': 2,
             'literal_rt': 2, 'q_labels': 4, 'ctx_drop': 1, 'gc': 1, 'set_order': 2},
 }
 
@@ -201,8 +202,11 @@ def generate(rng, seed, run, tier, focus='C01', xmode=False):
             shadow[s] = None
         elif kind in ('gc',):
             ev = [kind]
-        elif kind in ('lat_force', 'ctx_copy', 'literal_rt'):
+        elif kind in ('lat_force', 'lat_direct', 'ctx_copy', 'literal_rt'):
             ev = [kind, s]
+        elif kind == 'q_lat_slice':
+            a, b = sorted((rng.randrange(nc + 1), rng.randrange(nc + 1)))
+            ev = [kind, s, w, rng.choice([None, a]), rng.choice([None, b])]
         elif kind == 'dict_rt':
             raw = int(rng.random() < 0.6)
             ev = [kind, s, raw, rng.randrange(1, 1000) if raw and rng.random() < 0.85 else 0]
@@ -446,6 +450,12 @@ class Live:
 
     def audit_c01(self, sl, ctx, budget, salt):
         rec, f = self.rec, sl.fca
+        tab = call(lambda: (ctx.objects, ctx.properties, ctx.bools))
+        rec.check('C01.table_eq_model', tab.ok and tab.value == (sl.objs, sl.props, f.bools()),
+                  lambda: f'objects/properties/bools = {tab.text()[:500]} but the context was built from {sl.objs, sl.props, f.rows}')
+        if tab.ok:
+            core.scramble(tab.value)   # caller-owned copy
+            rec.fault('caller_mutates_result')
         for k, A in enumerate(sample_masks(f.n, budget, salt)):
             names = list(sl.onames(A))
             want = sl.pnames(f.intent(A))
@@ -599,6 +609,9 @@ class Live:
                 and set(got.value) == want
             rec.check('C05.neighbors_eq_upper_covers', ok,
                       lambda: f'neighbors({names!r}) = {got.text()} model {sorted(want)!r} rows={f.rows} labels={sl.objs}')
+            if got.ok:
+                core.scramble(got.value)
+                rec.fault('caller_mutates_result')
             if k % 3 == 0:
                 raw = call(lambda: [(e.members(), i.members()) for e, i in ctx.neighbors(names, raw=True)])
                 rec.check('C05.neighbors_eq_upper_covers', raw.ok and set(raw.value) == want and len(raw.value) == len(want),
@@ -796,6 +809,27 @@ class Live:
             sl.add_lat(out.value, 'lazy')
             rec.log(f'{len(self.members(out.value))} had={had}')
             return (s,)
+        if kind == 'lat_direct':
+            # the documented constructor: another lattice on the same Context instance
+            out = call(C.lattices.Lattice, sl.ctxs[0])
+            self.need(out.ok, 'lattice_constructs', lambda: f'Lattice(context) raised {out.text()}')
+            sl.add_lat(out.value, 'Lattice(ctx)')
+            rec.fault('second_lattice_same_context')
+            rec.log(f'{len(self.members(out.value))}')
+            return (s,)
+        if kind == 'q_lat_slice':
+            lt = self.lattice_of(sl, ev[2], kind)
+            ms = self.members(lt[0])
+            out = call(lt[0].__getitem__, slice(ev[3], ev[4]))
+            want = ms[ev[3]:ev[4]]
+            rec.check('C02.lattice_slice', out.ok and len(out.value) == len(want)
+                      and all(a is b for a, b in zip(out.value, want)),
+                      lambda: f'lattice[{ev[3]}:{ev[4]}] = {out.text()[:300]}')
+            rec.log(canon([c.extent for c in out.value]) if out.ok else out.text())
+            if out.ok:
+                core.scramble(out.value)   # the caller sorts/truncates its list
+                rec.fault('caller_mutates_result')
+            return (s,)
         if kind == 'ctx_copy':
             out = call(ctx.copy)
             self.need(out.ok, 'context_constructs', lambda: f'copy() raised {out.text()}')
@@ -815,6 +849,9 @@ class Live:
             self.need(out.ok, 'fromdict', lambda: f'fromdict raised {out.text()} rows={f.rows} perm={perm}')
             sl.add_ctx(out.value)
             sl.add_lat(out.value.lattice, f'fromdict(raw={raw},perm={perm})')
+            core.scramble(d.value)
+            core.scramble(dd)
+            rec.fault('caller_mutates_result')
             rec.fault('stored_order_permutation(raw)' if raw and perm else 'dict_roundtrip')
             rec.log('ok')
             return (s,)
@@ -901,6 +938,9 @@ class Live:
                       out.ok and len(out.value) == len(want) and set(out.value) == want,
                       lambda: f'neighbors({names!r}) = {out.text()} model {sorted(want)!r} rows={f.rows}')
             rec.log(out.text())
+            if out.ok:
+                core.scramble(out.value)
+                rec.fault('caller_mutates_result')
             return (s,)
         if kind in ('pk_ctx', 'pk_lat', 'pk_foreign'):
             return self.step_pickle(kind, ev, s, sl)
